@@ -360,6 +360,72 @@ LITERAL_TEXTS = ['Pay Bob 10 EUR \ufffd signed by Alice', 'na\u00efve caf\u00e9 
 ILL_FORMED = [b'\xff', b'\xe9', b'\xc3', b'\xf0\x9f', b'\x80', b'\xed\xa0\x80', b'\xc0\xaf', b'']
 
 
+def misplaced_copies(algname, seed):
+    """verify(key) / verify(uid) without an explicit signature examine every collected (signature, subject) pair. The SAME signature packet
+    attached a second time to another subject (a certification copied from one user id onto another, a binding signature copied onto another
+    subkey) does not sign that subject: the pair is bad and the verdict falsy. Each pair is examined for its own subject."""
+    ks = keyset(algname)
+    res = {'label': {'alg': algname, 'kind': 'misplaced-copy-of-a-signature'}, 'evals': 0, 'outcomes': {}, 'violations': [], 'exempt': [], 'info': {},
+           'distinct': 0, 'controls': 0}
+    L = res['label']
+
+    def note(o):
+        res['evals'] += 1
+        res['outcomes'][o] = res['outcomes'].get(o, 0) + 1
+
+    def reload():
+        return pgpy.PGPKey.from_blob(bytes(ks.pub))[0]
+
+    def nsigs(key):
+        mine = {key.fingerprint.keyid} | set(key.subkeys)
+        allsigs = list(key.__sig__) + [x for u in list(key.userids) + list(key.userattributes) for x in u.__sig__] + \
+            [x for sk in key.subkeys.values() for x in sk.__sig__]
+        return sum(1 for x in allsigs if x.signer in mine)
+
+    base = reload()
+    res['controls'] += 1
+    try:
+        v0 = base.verify(base)
+        if not v0 or len(list(v0.good_signatures)) != nsigs(base):
+            res['violations'].append({'case': dict(L, control='untouched key'), 'what': 'harness error: the untouched key does not verify all its %d own signatures' % nsigs(base)})
+            return res
+    except Exception as ex:
+        res['violations'].append({'case': dict(L, control='untouched key'), 'what': 'harness error: verify(key) raised %s' % type(ex).__name__})
+        return res
+    plans = []
+    uids = list(base.userids)
+    if len(uids) >= 2:
+        plans.append(('certification of user id 0 copied onto user id 1', lambda k: (list(k.userids)[1], list(k.userids)[0].selfsig)))
+        plans.append(('certification of user id 1 copied onto user id 0', lambda k: (list(k.userids)[0], list(k.userids)[1].selfsig)))
+    subs = list(base.subkeys.values())
+    if len(subs) >= 2:
+        plans.append(('binding signature of subkey 0 copied onto subkey 1', lambda k: (list(k.subkeys.values())[1], list(list(k.subkeys.values())[0].__sig__)[0])))
+    if uids and list(base.userattributes):
+        plans.append(('certification of user id 0 copied onto the user attribute', lambda k: (list(k.userattributes)[0], list(k.userids)[0].selfsig)))
+    for what, plan in plans:
+        key = reload()
+        target, sig = plan(key)
+        if sig is None:
+            continue
+        target |= pgpy.PGPSignature.from_blob(bytes(sig))
+        n = nsigs(key)
+        res['distinct'] += 1
+        for how, call in (('verify(key)', lambda: key.verify(key)), ('verify(the subject alone)', lambda: key.verify(target))):
+            try:
+                v = call()
+            except Exception as ex:
+                note('raised:' + type(ex).__name__)
+                continue
+            good, bad = list(v.good_signatures), list(v.bad_signatures)
+            want = n if how == 'verify(key)' else sum(1 for x in target.__sig__ if x.signer in ({key.fingerprint.keyid} | set(key.subkeys)))
+            note('accepted' if v else 'rejected')
+            if v or len(good) + len(bad) != want or not bad:
+                res['violations'].append({'case': dict(L, mutation='same signature packet on two subjects', detail={'what': what, 'call': how}),
+                                          'what': '%s, %s: %s with %d good + %d bad of %d signatures of this key (the copy does not sign the subject it was put on: '
+                                                  'falsy, and every pair listed)' % (what, how, 'truthy' if v else 'falsy', len(good), len(bad), want)})
+    return res
+
+
 def forged_literals(algname, seed):
     """signed literal MESSAGES (one-pass, literal, signature): the literal packet's octets are exchanged, the other packets kept. The subject
     verify() hashes is derived from the literal packet by PGPy itself (LiteralData.contents), so a lossy derivation shows here and nowhere in
@@ -458,8 +524,9 @@ def component(tier='quick', seed=0, known=()):
     order = sorted(range(len(tasks)), key=lambda i: -len(tasks[i][2]))
     with ctx.Pool(16) as pool:
         lit = pool.starmap_async(forged_literals, [(a, seed) for a in algs], chunksize=1)
+        mis = pool.starmap_async(misplaced_copies, [(a, seed) for a in algs], chunksize=1)
         out = pool.map(run_one, [tasks[i] for i in order], chunksize=1)
-        out += lit.get()
+        out += lit.get() + mis.get()
     out.sort(key=lambda r: (r['label']['alg'], r['label']['kind']))
     violations, known_hits, outcomes, exempt, vclasses = [], [], {}, {}, {}
     evals = distinct = controls = 0
@@ -499,7 +566,8 @@ def component(tier='quick', seed=0, known=()):
             'bound': '%d PGPy-made signatures (%s) x (%s): every single-bit flip of the version/type/pubalg/hashalg octets, the hashed-subpacket count, '
                      'every hashed-area octet and the MPI region; every single-bit flip of the document / user id, a seeded sample of single-bit flips of '
                      'user attribute, primary-key and subkey packets; the listed subject, key and issuer substitutions; signed literal messages (%d texts, '
-                     'given as str and as octets) whose literal packet octets are exchanged (U+FFFD for ill-formed UTF-8, insertions, dropped octets, bit flips)'
+                     'given as str and as octets) whose literal packet octets are exchanged (U+FFFD for ill-formed UTF-8, insertions, dropped octets, bit flips); '
+                     'the same signature packet attached to a second subject (user id, user attribute, subkey), verified without an explicit signature'
                      % (len(tasks), ', '.join(algs), ', '.join(kinds), len(LITERAL_TEXTS)),
             'cases': evals + controls,
             'distinct_nontrivial': distinct,
